@@ -57,6 +57,13 @@ CHECKS["C18"] = dict(
     note="Trusted: VHDL-subset semantics, the bit-loop specifications in vfw/props/c18.py, z3. Python-constant path of the helpers is not separately decided here (it shares the code path: helpers are ordinary cohdl functions evaluated by the same operators C09 covers).",
     technique="bounded symbolic translation validation: z3 over interpreted emitted VHDL vs bit-loop definitions",
 )
+CHECKS["C05"] = dict(
+    category="translation_validation",
+    text="Matrix of ordered (source, target) type pairs over Bit/bool/BitVector[n]/Unsigned[n]/Signed[n] (n<=3 quick, <=4 thorough), int/str literals, Null/Full x assignment forms (<<=, .next, ^=, .push, @=, .value, initialisation of local Signals/Variables, slice and bit targets, if-expression and return merges). Oracle = accept/reject matrix of the statement: must-accept cells are proved value preserving for ALL source values by z3 over the interpreted emitted VHDL (range-checked), must-reject cells must fail to compile, merges must be rejected or preserve the selected operand's value.",
+    design_ref="DESIGN.md 3/C05, App. E",
+    note="Trusted: spec.conv_assign (written from the statement), VHDL-subset semantics, z3. Vector truthiness and slices of typed vectors are outside (statement silent). Port connections are exercised by C12.",
+    technique="accept/reject matrix + z3 value-preservation proof per accepted cell",
+)
 NA = {}
 manifest = {
     "version": 1,
